@@ -126,7 +126,15 @@ func c13Run(c *mon.Ctx, idx int) {
 		c.Evals(1)
 		if filt != nil && r.Intn(4) == 0 {
 			// an Execute call: the container holds several pool data
-			in := []interface{}{datum, pool[r.Intn(len(pool))].Datum(), datum}
+			var in interface{} = []interface{}{datum, pool[r.Intn(len(pool))].Datum(), datum}
+			switch r.Intn(4) {
+			case 0:
+				in = [2]interface{}{datum, pool[r.Intn(len(pool))].Datum()}
+			case 1:
+				if m, ok := datum.(map[string]interface{}); ok {
+					in = [1]map[string]interface{}{m}
+				}
+			}
 			before := mon.Snapshot(in)
 			x := execute(filt, in)
 			if after := mon.Snapshot(in); after != before {
